@@ -380,6 +380,11 @@ class NetworkService(ModelElement):
             raise TopologyException(f'Interface {interface} has more than one peer: {peers}, '
                                     f'this is a model error, unable to proceed.')
 
+        # only a port of this service may be removed here (the interface may be connected to
+        # another service, or to another node by a plain link)
+        if peers[0].node_id not in self.topo.graph_model.get_all_ns_or_link_connection_points(link_id=self.node_id):
+            raise TopologyException(f'Interface {interface} is not connected to network service {self.name}')
+
         self.topo.graph_model.remove_cp_and_links(node_id=peers[0].node_id)
         # remove from interface list as well
         self._interfaces = list(filter((lambda x: x.node_id != peers[0].node_id), self._interfaces))
